@@ -474,7 +474,11 @@ def stepK (d : DSt) (w : List String) : DSt × String :=
     finishK { d with s := s' } m' true [{ ok := true, st := s' }]
   | ["k", "arm", os] =>
     match idx os m.objs.length with
-    | some o => if !(m.obj o).alive then (d, "bad-op") else finishK d (setArmed m o true) true [{ ok := true, st := d.s }]
+    | some o =>
+      if !(m.obj o).alive then (d, "bad-op")
+      -- reply data of a request that is still unanswered is not overwritten
+      else if isArmed m o then finishK d m false [{ ok := false, st := d.s }]
+      else finishK d (setArmed m o true) true [{ ok := true, st := d.s }]
     | none => (d, "bad-op")
   | "k" :: "defer" :: hs :: os :: rest =>
     match idx hs 3, idx os m.objs.length with
